@@ -22,6 +22,12 @@ def main(tier, seed, prop="C02", torn=False, only_kinds=None, corpus=None, nrand
             nrand = 16 if tier == "quick" else 400
         ex = exhaustive_histories(3)
         hs += [("exhaustive", h) for h in (r.sample(ex, 10 if torn else 30) if tier == "quick" else ex)]
+        # a batch whose single oplog entry exceeds the 65536-byte flush threshold (the call flushes whatever the cadence says), as
+        # first, as non-first call of the session, and on top of pending entries; cuts of its long journal are sampled
+        big = lambda n: ("append", [bytes([65 + i % 26]) for i in range(n)])
+        hs += [("big-batch", h) for h in ([[("append", [b"a", b"bc"]), ("append", [b"d"]), big(1000), ("append", [b"e"])]] if tier == "quick" else
+                                         [[("append", [b"a", b"bc"]), ("append", [b"d"]), big(1000), ("append", [b"e"])],
+                                          [big(950)], [("append", [b"x"]), ("reopen",), ("append", [b"y"]), big(1200), ("clear", 5, 900)]])]
         for _ in range(nrand):
             h = random_history(r, r.choice([4, 6, 9, 14]), reopen_p=0.15, clear_p=0.2)
             if prop == "C12" or r.random() < 0.2:
